@@ -462,6 +462,74 @@ theorem converted_receiver_ne_module (E : Evm σ) (v : View) (sI s : State σ) (
   rw [heq, evmAddr_of_length20 _ hlen, hblk] at hb
   cases hb
 
+/-! ### which denomination is converted -/
+
+/-- On a packet that does not return a coin, the hook's denomination IS the one the transfer application credits
+    (both are the voucher of the trace prefixed with the DESTINATION port/channel). -/
+theorem hookDenom_eq_credited (H : String → Denom) (f : Fields) (h : hasPrefix f.srcPort f.srcChan f.denom = false) :
+    hookDenom H f = creditedDenom H f := by
+  simp [hookDenom, creditedDenom, h]
+
+/-- Registry hygiene (named assumption): for a RETURNING coin (`data.Denom` starts with the source port/channel prefix)
+    the hook's denomination — the hash of the doubly prefixed trace `dest/ ++ source/ ++ rest` — is not a registered
+    denomination. It cannot be: a trace starting with `dest/` is only ever minted by packets received over that very
+    destination channel, and over that channel every `data.Denom` starting with `source/` is unescrowed, never minted;
+    `RegisterCoin` / `AddCoin` require existing supply. -/
+def ReturningHashUnregistered (H : String → Denom) (f : Fields) (sI : State σ) : Prop :=
+  hasPrefix f.srcPort f.srcChan f.denom = true → sI.denomMap (hookDenom H f) = none
+
+/-- A conversion touches balances of the hook's denomination only. -/
+theorem converted_other_denoms_untouched (E : Evm σ) (v : View) (sI s : State σ) (h : Converted E v sI s) :
+    ∀ a d, d ≠ v.denom → s.bal a d = sI.bal a d := by
+  obtain ⟨amt, id, p, b0, b1, e2, e3, _, _, _, _, _, _, _, _, _, hflow, _⟩ := h
+  intro a d hd
+  rcases hflow with ⟨_, _, _, hb⟩ | ⟨_, _, _, _, _, _, _, hb⟩
+  · rw [hb]; simp [sendCoins, addBal, hd]
+  · rw [hb]; simp [sendCoins, addBal, hd]
+
+/-- **hook_converts_credited_denom_only.** For every packet (any source / destination port and channel, any
+    `data.Denom`: 0/1/2-hop traces, traces that merely START with the destination prefix, genuinely returning coins):
+    after `OnRecvPacket` either nothing but the transfer application's effect is there, or ONE complete conversion
+    happened and the denomination converted is exactly the denomination the transfer application credited for this
+    packet (`creditedDenom`, transcribed from ibc-go v3 `OnRecvPacket`); no balance of any other denomination changed. -/
+theorem hook_converts_credited_denom_only (fixed : Bool) (E : Evm σ) (view : P → View) (inner : Inner σ P)
+    (H : String → Denom) (fields : P → Fields) (st : State σ) (pkt : P) (r : Res σ)
+    (hv : (view pkt).denom = hookDenom H (fields pkt))
+    (hreg : ReturningHashUnregistered H (fields pkt) (inner.effect st pkt))
+    (h : onRecv fixed E view inner st pkt = .ok r) :
+    Untouched (inner.effect st pkt) r.st ∨
+    (Converted E (view pkt) (inner.effect st pkt) r.st ∧ (view pkt).denom = creditedDenom H (fields pkt) ∧
+      ∀ a d, d ≠ creditedDenom H (fields pkt) → r.st.bal a d = (inner.effect st pkt).bal a d) := by
+  rcases conversion_atomic fixed E view inner st pkt r h with hu | hc
+  · exact Or.inl hu
+  · right
+    have hden : (view pkt).denom = creditedDenom H (fields pkt) := by
+      cases hp : hasPrefix (fields pkt).srcPort (fields pkt).srcChan (fields pkt).denom with
+      | false => rw [hv]; exact hookDenom_eq_credited H _ hp
+      | true =>
+        obtain ⟨_, id, _, _, _, _, _, _, _, _, hdm, _⟩ := hc
+        rw [hv, hreg hp] at hdm
+        cases hdm
+    refine ⟨hc, hden, ?_⟩
+    intro a d hd
+    exact converted_other_denoms_untouched E _ _ _ hc a d (by rw [hden]; exact hd)
+
+/-- The look-alike case is real: with asymmetric channel ids a foreign voucher whose trace starts with the DESTINATION
+    prefix is NOT a returning coin — the transfer application credits the voucher of the doubly prefixed trace, and so
+    does the hook (stripping with the destination prefix would name the unrelated coin `acoin`). -/
+example (H : String → Denom) :
+    let f : Fields := { srcPort := "transfer", srcChan := "channel-7", dstPort := "transfer", dstChan := "channel-0",
+                        denom := "transfer/channel-0/acoin" }
+    creditedDenom H f = H "transfer/channel-0/transfer/channel-0/acoin" ∧ hookDenom H f = creditedDenom H f ∧
+    voucherOf H (stripPrefix f.dstPort f.dstChan f.denom) = "acoin" := by
+  refine ⟨?_, ?_, ?_⟩ <;> simp [creditedDenom, hookDenom, hasPrefix, denomPrefix, stripPrefix, voucherOf] <;> decide
+
+/-- … while the genuinely returning coin is unescrowed under its own name. -/
+example (H : String → Denom) :
+    creditedDenom H { srcPort := "transfer", srcChan := "channel-7", dstPort := "transfer", dstChan := "channel-0",
+                      denom := "transfer/channel-7/atele" } = "atele" := by
+  simp [creditedDenom, hasPrefix, denomPrefix, stripPrefix, voucherOf]
+
 /-! ### the other callbacks pass through -/
 
 theorem onAcknowledgement_passthrough {ε} (x : Option ε) : onAcknowledgement x = x := by
